@@ -327,14 +327,18 @@ async fn current_manifest_path(
                 .unwrap();
             let mut current_meta = meta;
 
-            while let Some((scheme, meta)) = valid_manifests.next().await.transpose()? {
-                if matches!(scheme, ManifestNamingScheme::V2) {
+            while let Some((next_scheme, meta)) = valid_manifests.next().await.transpose()? {
+                // A V2 directory listed by a store without lexically ordered listing
+                // (e.g. S3 Express) is scanned here too; only a *mix* of schemes is an error.
+                if matches!(next_scheme, ManifestNamingScheme::V2)
+                    && !matches!(scheme, ManifestNamingScheme::V2)
+                {
                     return Err(Error::Internal {
                         message: "Found V2 manifest in a V1 manifest directory".to_string(),
                         location: location!(),
                     });
                 }
-                let version = scheme
+                let version = next_scheme
                     .parse_version(meta.location.filename().unwrap())
                     .unwrap();
                 if version > current_version {
